@@ -47,6 +47,18 @@ HasTypeStmt(stmts, n) == TypeStmtsNamed(stmts, n) # <<>>
 NamespaceBody(stmts, n) == LET ns == SelectSeq(stmts, LAMBDA s : s.k = "namespace" /\ s.name = n) IN IF ns = <<>> THEN <<>> ELSE ns[1].body
 HasNamespace(stmts, n) == \E i \in DOMAIN stmts : stmts[i].k = "namespace" /\ stmts[i].name = n
 
+(* Declaration clashes at module level.  TypeScript rejects a module in which one identifier is declared twice in the same       *)
+(* declaration space (two type aliases: TS2300; two consts: TS2451) or is both an import binding and a local declaration (TS2440):  *)
+(* such a file has no usable types at all.  (A type alias and a const of one name are fine: different spaces.)                       *)
+ImportBindings(stmts) ==
+  UNION {IF stmts[i].k = "import"
+         THEN (IF stmts[i].star # "" THEN {stmts[i].star} ELSE {}) \cup {stmts[i].names[j].as : j \in DOMAIN stmts[i].names}
+         ELSE {} : i \in DOMAIN stmts}
+DeclCount(stmts, kind, n) == Cardinality({i \in DOMAIN stmts : stmts[i].k = kind /\ stmts[i].name = n})
+ClashNames(stmts) ==
+  {n \in {stmts[i].name : i \in {j \in DOMAIN stmts : stmts[j].k \in {"type", "const"}}} :
+     DeclCount(stmts, "type", n) > 1 \/ DeclCount(stmts, "const", n) > 1 \/ n \in ImportBindings(stmts)}
+
 Decl(file, ns, stmt) == [k |-> "decl", file |-> file, ns |-> ns, stmt |-> stmt]
 Global(n) == [k |-> "global", n |-> n]
 Missing(n) == [k |-> "missing", n |-> n]
